@@ -11,13 +11,15 @@ import mp_common as M
 import utf_common as U
 
 LEVEL = "proof"
-EXTRA_PROPERTIES = ["C03s", "C03csv"]     # C03csv: the CSV instance (by-name requests on a row in any order; csv family); the scopes as an adaptive client of the reader interface: stream = memory at the scope level (coq/MpScopeClient.v, Properties_C03s.v)
+EXTRA_PROPERTIES = ["C03s", "C03csv", "C03jx"]     # C03jx: the JSON / XML instance (jx family); C03csv: the CSV instance (by-name requests on a row in any order; csv family); the scopes as an adaptive client of the reader interface: stream = memory at the scope level (coq/MpScopeClient.v, Properties_C03s.v)
 TRUSTED_BASE = [
     "Coq 8.16.1 kernel incl. vm_compute (witnesses of the _refuted theorems, Examples, byte-class sweeps); no native_compute",
     "axioms: none (every theorem prints 'Closed under the global context')",
     "hand-written Gallina model coq/MpScopeModel.v of CVariableKey::operator==, CMsgPackReadObjectScope (ReadKey, FindValueByKey, ResetKey, SerializeValue, Open*Scope, OnFinishChildScope, VisitKeys, destructor), CMsgPackReadArrayScope, CMsgPackReadBinaryScope in include/bitserializer/msgpack_archive.h, over the reader model coq/MpModel.v (family mp: C05/C06/C07); specification coq/MpScopeSpec.v (association-list semantics of request histories) over the reference decoder coq/MpSpec.v",
     "modelled, not verified: C++ operator== on float/double = IEEE equality on bit patterns (ieee_eq32/64); RAII destruction order (child scope destroyed before the parent continues; during unwinding the derived destructor body runs, then ~CMsgPackScopeBase notifies the parent); the destructors' try { } catch (...) { } = a failing skip stops the loop and leaves the reader where SkipValue threw (skip_at); no destructor of the scopes lets an exception escape (the model has no terminate outcome; an implementation TERMINATE is a disagreement); double->float / float->double conversions supplied by the driver; string_view keys of the stream reader alias the reader's buffer (not modelled: the model compares key values)",
     "the stream reader under the scopes: for keyed value / object / array requests, array element requests, VisitKeys and VisitKeys callbacks (RGet / RObj / RArr / AGet / AObj / AArr / AEnd / RVisit / REach with VSkip / VGet / VObj / VArr; nested, any order) on a seekable stream T_C03_stream_equals_memory (Properties_C03s.v: the scope model re-expressed as a client of the reader interface, coq/MpScopeClient.v, composed with T_C10mp_adaptive_stream_equals_memory of the mpstream family and its models coq/MpStreamModel.v / StreamModel.v); for byte arrays, guarded / throwing requests, histories ending in an error and non-seekable streams the stream reader (kinds s, S) is tied to the same model by this correspondence run only",
+    "CSV instance (Properties_C03csv.v): hand-written model coq/CsvModel.v of src/csv/csv_readers.cpp (ReadValue(key): ++mValueIndex then search, per-row cursor, the stream reader's in-place unescape cache) with request programs per row (csv_load_hist / csv_load_stream_hist / csv_load_chunks_hist); tied by harness/drv_csv.cpp op csvh + ml/csv_driver.ml + props/C03csv.py (independent Python reading as judge); UTF-16/32 CSV streams are composed through the chunks theorem, not run with histories; typed (non-string) targets are C09's",
+    "JSON / XML instance (Properties_C03jx.v): hand-written model coq/JxHistModel.v of the object / array / attribute scopes of rapidjson_archive.h and pugixml_archive.h over the DOM the adapter model (coq/JxModel.v) assigns to the document text; RapidJSON's FindMember and pugixml's child(name) / attribute(name) are MODELLED as first-match searches from the start (validated on every run incl. duplicate names); 'a not-loaded target is unchanged' is observed by the driver's sentinel targets, not stated in Coq; tied by harness/drv_jx.cpp op jx.hist + ml/jx_driver.ml + props/C03jx.py",
     "extraction: ExtrOcamlBasic only; trusted glue ml/glue.ml ml/glue_mpscope.ml ml/mpscope_driver.ml harness/drv_mpscope.cpp props/C03.py props/mp_common.py (independent Python encoder/decoder + history evaluator used for input generation and for judging)",
 ]
 ASSUMPTIONS = [
@@ -1047,6 +1049,19 @@ def run(ctx, vlib):
     res["extra"]["csv_chunk_sizes"] = cs.get("chunk_sizes")
     res["rule"] += "; " + cs.get("rule", "")
     res["broken"] += "; correspondence CSV model vs src/csv/csv_readers.cpp + csv_archive (drv_csv, op csvh)"
+    # the JSON / XML instance (jx family, coq/Properties_C03jx.v): request histories through the real RapidJson / PugiXml scopes
+    import C03jx
+    js = C03jx.run_c03jx(ctx, vlib)
+    res["evaluations"] += js.get("evaluations", 0)
+    res["distinct_nontrivial"] += js.get("distinct_nontrivial", 0)
+    res["failing"] = (res["failing"] + js.get("failing", []))[:20]
+    res["diffs"] = res["diffs"] + js.get("diffs", [])
+    res["known_lines"] = res["known_lines"] + js.get("known_lines", [])
+    for k, v in js.get("classes", {}).items():
+        res["classes"]["jx " + str(k)] = v
+    res["extra"]["jx"] = js.get("extra")
+    res["rule"] += "; " + js.get("rule", "")
+    res["broken"] += "; " + js.get("broken", "correspondence JSON / XML scope model vs rapidjson_archive.h / pugixml_archive.h (drv_jx, op jx.hist)")
     return res
 
 
@@ -1063,6 +1078,9 @@ def replay(rp, vlib):
     if str(rp.get("case", "")).startswith("csvh "):
         import C03csv
         return C03csv.replay_c03csv(rp, vlib)
+    if str(rp.get("case", "")).startswith("jx.hist"):
+        import C03jx
+        return C03jx.replay_c03jx(rp, vlib)
     impl, model = drivers(vlib)
     line = rp["case"]
     a = vlib.run_driver(impl, [line], jobs=1)[0]
